@@ -13,7 +13,8 @@ SPEC = {
              "k in {1,2} (thorough 3 on small shapes) x weight_type x feature variants {plain, each single ignored arc, error_scaling 0.5 / 0 on "
              "each single arc, additional start / end at each inner node, solution_weights_superset}; judged: k routes, valid routes, reported "
              "objective and per-arc errors == recomputation, is_valid_solution(), and no better (routes, weights) exists by brute force; "
-             "non-trivial = distinct (shape, weights, k, variant) solved and compared with an oracle optimum"),
+             "non-trivial = distinct (shape, weights, k, variant) solved and compared with an oracle optimum. Witness family 'spin': one walk of weight "
+             "0.5 / 0.25 round a 2-cycle r = 2..8 times before a heavy ignored (or scale-0) arc: the optimum 0 is written down, the model must reach it"),
     "assumptions": ["int optimum: weights in 0..max f suffice (a larger weight only overshoots)",
                     "float optimum: attained at a vertex of the arrangement {residual=0} U {w_i=0}; enumerated with exact Fractions",
                     "cyclic oracle: walk multiplicity vectors with <= B traversals per arc, B >= every multiplicity the library used ('no better solution with <= B traversals')"],
@@ -65,6 +66,15 @@ def cases(tier, seed):
             if max(v) in (2, 3, 4) and min(v) >= 1 and picked < 4:
                 picked += 1
                 yield {"fam": "cyc", "nodes": names, "arcs": [[a, b, w] for (a, b), w in zip(arcs, v)], "full": False, "kmax": 1, "B": 4}
+    # witness family "spin": one walk of FRACTIONAL weight w going round a 2-cycle r times, followed by a heavy arc that is ignored (or scaled
+    # by 0). The walk s b (x b)^r c d with weight w explains every judged arc exactly, so the optimum is 0 - written down, not searched.
+    # (The heavy arc lies in the reach of the cycle arcs: the model's per-arc repetition cap, the largest value in the arc's reach, is
+    # 100 there, so the known finding D10-LAE does not apply; what is decided is that the repetition variables can really count to r.)
+    for w in (0.5, 0.25):
+        for r in range(2, 9):
+            for how in ("ignore", "scale0"):
+                yield {"fam": "cyc", "spin": {"w": w, "r": r, "how": how}, "nodes": ["s", "b", "x", "c", "d"],
+                       "arcs": [["s", "b", w], ["b", "x", r * w], ["x", "b", r * w], ["b", "c", w], ["c", "d", 100]], "full": False, "kmax": 1, "B": r}
     for idx, shp in enumerate(world.named_shapes()):
         names, arcs = world.present(shp, seed, 1000 + idx)
         if len(arcs) > 7:
@@ -109,6 +119,37 @@ def run(case):
     key = world.shape_key((len(V), tuple(E))) + "|" + ",".join(str(f[e]) for e in E)
     G = drivers.build_graph(case)
     inner = [v for v in V if any(a[1] == v for a in E) and any(a[0] == v for a in E)]
+    if case.get("spin"):
+        sp = case["spin"]
+        kw = {"k": 1, "weight_type": "float"}
+        if sp["how"] == "ignore":
+            kw["elements_to_ignore"] = [["c", "d"]]
+        else:
+            kw["error_scaling"] = [[["c", "d"], 0]]
+        obs = drivers.observe(dict(case, cls=cls, kw=kw), G)
+        tags["cyc:spin"] += 1
+        ctx = f"{cls}(k=1, float, {kw}) on s->b {sp['w']}, b<->x {sp['r'] * sp['w']}, b->c {sp['w']}, c->d 100"
+        if obs["exc"] or not obs["solved"]:
+            viol.append({"kind": "lae_unsolved", "msg": f"{ctx}: exc={obs['exc']} solved={obs['solved']}; k-LAE is always feasible"})
+        else:
+            routes = obs["sol"].get(rkey)
+            arc_amt, _ = preds.traversals(routes, obs["sol"]["weights"])
+            rec = sum(abs(f[e] - arc_amt.get(e, 0)) for e in E if e != ("c", "d"))
+            errs = preds.route_errors(case, routes, cyc, (), ())
+            if errs:
+                viol.append({"kind": "lae_invalid_solution", "msg": f"{ctx}: {errs[0]}"})
+            elif abs(obs["obj"] - rec) > 1e-6:
+                viol.append({"kind": "lae_objective_mismatch", "msg": f"{ctx}: get_objective_value()={obs['obj']} but the error recomputed from the returned walk is {rec}"})
+            elif rec > 1e-6:
+                o_np = drivers.objective_without_presolve(dict(case, cls=cls, kw=kw), G)
+                if o_np["solved"] and o_np["obj"] is not None and o_np["obj"] <= 1e-6:
+                    tags["highs_presolve_wrong_optimum"] += 1
+                else:
+                    viol.append({"kind": "lae_not_optimal", "msg": f"{ctx}: total error {rec}, but the walk s b (x b)^{sp['r']} c d with weight {sp['w']} has total error 0",
+                                 "solution": {rkey: routes, "weights": obs["sol"]["weights"]}})
+            else:
+                nt.append(key + "|spin|" + sp["how"])
+        return {"v": viol[:4], "nt": nt, "tags": dict(tags), "out": "spin:" + ("viol" if viol else "ok")}
 
     def one(k, wt, variant, kw_extra, ignored=(), scaling=None, starts=(), ends=(), pool=None):
         kw = {"k": k, "weight_type": wt}
